@@ -27,8 +27,8 @@ def extra(chk, pkg):
         # quick tier: a slice of cases through `sourmash search | prefetch | gather`, IN-PROCESS
         # (sourmash.__main__.main(argv) inside adapters/cli_server.py), the collections written in all the ways the
         # command line accepts them; rows against the in-process API of the same case and against each other
-        n = int(os.environ.get("VERIF_C08_QCLI", "18"))
-        FK = ["sig", "zip", "dir", "multi", "pl", "mf"]
+        n = int(os.environ.get("VERIF_C08_QCLI", "21"))
+        FK = ["sig", "zip", "zipnm", "dir", "multi", "pl", "mf"]
         cases, kl = [], []
         for i in range(n):
             c = partition.gen_case(chk.rng, partition.FLAVOURS[i % len(partition.FLAVOURS)])
@@ -54,7 +54,7 @@ def extra(chk, pkg):
                     chk.add_violation("cli", sig, msg, data)
         chk.cov["cli_inprocess_cases"] = len(jobs)
         chk.cov["cli_inprocess_invocations"] = sum(
-            sum(1 for l in c if l.split()[0] in ("searchc", "xpfc", "xgd")) for c, _, _ in jobs)
+            sum(1 for l in c if l.split()[0] in ("searchc", "xpfc", "xsa", "xgd")) for c, _, _ in jobs)
         return
     n = int(os.environ.get("VERIF_C08_CLI", "64"))
     cases = [partition.gen_case(chk.rng, partition.FLAVOURS[i % len(partition.FLAVOURS)]) for i in range(n)]
